@@ -324,7 +324,9 @@ impl<E: Marshal> Marshal for &[E] {
             if E::valid_slice(ctx.byteorder) {
                 debug_assert_eq!(alignment, std::mem::size_of::<E>());
                 let len = alignment * self.len();
-                assert!(len <= u32::MAX as usize);
+                if len > crate::wire::unmarshal::MAX_ARRAY_LEN {
+                    return Err(MarshalError::MessageTooLong);
+                }
                 write_u32(len as u32, ctx.byteorder, ctx.buf);
                 ctx.align_to(alignment);
                 let ptr = self.as_ptr().cast::<u8>();
@@ -351,6 +353,9 @@ impl<E: Marshal> Marshal for &[E] {
             p.marshal(ctx)?;
         }
         let size_of_content = ctx.buf.len() - size_before;
+        if size_of_content > crate::wire::unmarshal::MAX_ARRAY_LEN {
+            return Err(MarshalError::MessageTooLong);
+        }
         crate::wire::util::insert_u32(
             ctx.byteorder,
             size_of_content as u32,
@@ -443,6 +448,9 @@ impl<K: Marshal, V: Marshal> Marshal for std::collections::HashMap<K, V> {
             p.1.marshal(ctx)?;
         }
         let size_of_content = ctx.buf.len() - size_before;
+        if size_of_content > crate::wire::unmarshal::MAX_ARRAY_LEN {
+            return Err(MarshalError::MessageTooLong);
+        }
         crate::wire::util::insert_u32(
             ctx.byteorder,
             size_of_content as u32,
